@@ -157,6 +157,22 @@ def run(rep, tier, seed, model_ok=True, effort=1):
             if code != 0:
                 rep.violation("update was blocked although only %s (untracked, carries no pattern) is dirty" % extra_name,
                               input=dict(status="untracked", file=extra_name, allow_dirty=False, git_status=status_text, exit=code, logs=logs[-3:]), **{"class": "blocked-wrongly"})
+    # a tracked file WITHOUT a pattern whose name equals a pattern file's name up to letter case (VERSION next to a script `version`) has
+    # uncommitted edits: with --allow-dirty the update goes on and leaves that file alone
+    prj = project.TempProject("MAJOR.MINOR.PATCH", "1.2.3", files={"VERSION": ["{version}"]}, contents={"VERSION": "1.2.3\n", "version": "#!/bin/sh\necho helper\n"},
+                              commit=True, tag=False, push=False, vcs="git")
+    with prj:
+        if sorted(f for f in os.listdir(prj.dir) if f.lower() == "version") == ["VERSION", "version"]:      # (a case-sensitive file system)
+            open(prj.path("version"), "a").write("echo edited\n")
+            status_text = prj.git("status", "--porcelain")
+            code, out, logs, exc = prj.run(impl, ["update", "--patch", "--no-fetch", "--commit", "--allow-dirty"])
+            shown = prj.git("show", "--stat", "--format=", "HEAD")
+            rep.case(("case-twin",), nontrivial=True)
+            inp = dict(status="modified-unstaged", file="version", configured_as="VERSION", allow_dirty=True, git_status=status_text, exit=code, logs=logs[-3:])
+            if code != 0:
+                rep.violation("update --allow-dirty was blocked although the only dirty file (`version`) carries no pattern (the pattern file is `VERSION`)", input=inp, **{"class": "blocked-wrongly"})
+            elif "version " in shown.replace("VERSION", "") or "echo edited" in prj.git("show", "HEAD"):
+                rep.violation("the uncommitted edit of `version` was swept into the bump commit", input=inp, **{"class": "swept-in"})
     # a pattern file (reached through a glob entry) in a directory in which nothing is tracked yet: git shows the directory, not the file, unless asked
     # for every untracked file -- it is an untracked pattern file all the same and blocks the update, with or without --allow-dirty; an unrelated
     # untracked directory next to it never does
